@@ -39,13 +39,13 @@ claim("C13",
       "DESIGN.md §4 C13")
 
 claim("C09",
-      "transition extraction from SSA vs documented table + write-lock lockset + dominance + who-may-call",
+      "transition extraction from SSA vs documented table + write-lock lockset + dominance + who-may-call + must-pass-through of the keeper action in the API handlers",
       "Static: the set of state transitions that exist in both keepers (every writer of WorkSpace.state and of the per-state indexes, reconstructed as delete-old/set-new/store triples with their dominating membership guard) equals the documented table; every state effect of concurrently runnable code holds stateLock for writing; stop/remove/delete clear the plotter queue before any effect; exactly one plotter goroutine and only it calls Plot; the miner asks for SFMining and GetProofs offers only spaces passing the flag filter on the same state field that Info reports. Right level: the property quantifies over all histories and plotter interleavings; the extractor enumerates every transition that can ever execute.",
       "Trusted: go/ssa, the documented table as frozen from engine.go, single-threadedness before Start. NOT decided: liveness, that the popped queue item is the plotting space, linearisation of unlocked state reads in proof queries.",
       "DESIGN.md §4 C09")
 
 claim("C15",
-      "edge-cut dominance of rejection/never-exceed tests + provenance of directory and shortfall values + constant evaluation",
+      "edge-cut dominance of rejection/never-exceed tests + provenance of directory and shortfall values + constant evaluation + must-pass-through of the keeper operation in the API/mining wrappers",
       "Decides the rejection, placement, reuse-first and never-exceed STRUCTURE only: the minimum-size test dominates all work; every creation lies behind the allow flag and the success edge of a free-disk check of the shortfall; per-path fill/check/creation use the same requested directory which reaches the plot file path; generate runs only after an unfinished fill over the indexed spaces and continues from its total; selection/creation lie behind the comparison with the target for the very bit length used; smallest usable bit length = chain minimum.",
       "Trusted: go/ssa, PlotSize monotone. NOT decided: the arithmetic (exact totals, shortfall < smallest plot, exact counts) and persistence of the selection across restart — value facts.",
       "DESIGN.md §4 C15")
@@ -110,7 +110,7 @@ claim("C02",
       "DESIGN.md §4 C02")
 
 claim("C01",
-      "writer/reader agreement over the keystore file (backward slices through read helpers, forward into put helpers) + branch-polarity typestate + edge-cut gates",
+      "writer/reader agreement over the keystore file (backward slices through read helpers, forward into put helpers) + branch-polarity typestate + edge-cut gates + must-pass-through of export and file write in the API handler",
       "Static necessary conditions of 'an exported keystore restores the same wallet': every file field import consumes is filled by export from the durable key it stands for and stored back under that key; the external and internal counters keep their branch through fetchChildNum, the file, putLastIndex/updateChildNum and memory, and each of import's two re-derivation loops derives from, labels and persists its own branch; nothing is stored unless the scrypt digest check with the caller's old passphrase and both secretbox opens succeeded; every consumed field is authenticated (4 known findings: Remark, Account, ExternalChildNum, InternalChildNum are not — D19, reproduced); a present keystore id stops the import before any write and the bucket is created fresh; delete removes bucket content, the bucket under its own name and the account id on every committing path.",
       "Trusted: go/ssa, secretbox authenticity, scrypt digest check. NOT decided: equality of the re-derived addresses/keys as values (BIP32 arithmetic) for all seeds and counts; signing after unlock (C05-BIND); 'rejected import leaves the wallet unchanged' is C12's single-transaction rule.",
       "DESIGN.md §4 C01")
